@@ -14,6 +14,7 @@ pub mod c10;
 pub mod c11;
 pub mod c14;
 pub mod c15;
+pub mod c16;
 pub mod c17;
 pub mod c18;
 pub mod c19;
@@ -36,6 +37,7 @@ pub fn run(prop: &str, tier: Tier, seed: u64) -> Option<i32> {
         "C11" => c11::run(tier, seed),
         "C14" => c14::run(tier, seed),
         "C15" => c15::run(tier, seed),
+        "C16" => c16::run(tier, seed),
         "C17" => c17::run(tier, seed),
         "C19" => c19::run(tier, seed),
         "C20" => c20::run(tier, seed),
@@ -58,6 +60,7 @@ pub fn scenario(prop: &str, name: &str, tier: Tier) -> Option<BoxedScenario> {
         "C11" => c11::scenario(name, tier),
         "C14" => c14::scenario(name, tier),
         "C15" => c15::scenario(name, tier),
+        "C16" => c16::scenario(name, tier),
         "C17" => c17::scenario(name, tier),
         "C19" => c19::scenario(name, tier),
         "C20" => c20::scenario(name, tier),
